@@ -273,6 +273,114 @@ def site_key(name, kind, ordinal):
     return f"{F.strip_generics(name) if not name.startswith('<') else name}|{kind}#{ordinal}"
 
 
+_INT_RANGE = {"u8": (0, 255), "u16": (0, 65535), "u32": (0, 2**32 - 1), "i8": (-128, 127), "i16": (-32768, 32767), "i32": (-2**31, 2**31 - 1), "usize": (0, 2**64 - 1), "u64": (0, 2**64 - 1)}
+
+
+def _pat_values(pat, fx):
+    """The finite set of integers a literal / range / or-pattern admits (None if it is not such a pattern or too large)."""
+    if not isinstance(pat, dict):
+        return None
+    p = pat.get("p")
+
+    def lit(e):
+        e = F.strip(e) if isinstance(e, dict) and "k" in e else e
+        if isinstance(e, dict) and e.get("k") == "Lit" and e.get("value", {}).get("lit") == "int":
+            return int(e["value"]["v"])
+        if isinstance(e, dict) and e.get("lit") == "int":
+            return int(e["v"])
+        if isinstance(e, dict) and e.get("k") == "Path":
+            d = F.path_def(e)
+            return fx.const_value(d) if d else None
+        return None
+
+    if p == "Lit":
+        v = lit(pat.get("value"))
+        return {v} if v is not None else None
+    if p == "Range":
+        lo, hi = lit(pat.get("lo") or pat.get("start")), lit(pat.get("hi") or pat.get("end"))
+        if lo is None or hi is None or hi - lo > 70000:
+            return None
+        incl = pat.get("inclusive", pat.get("end_kind", "Included") in (True, "Included"))
+        return set(range(lo, hi + 1 if incl else hi))
+    if p == "Or":
+        out = set()
+        for q in pat.get("pats", []):
+            v = _pat_values(q, fx)
+            if v is None:
+                return None
+            out |= v
+        return out
+    return None
+
+
+def arm_bounded(fx, name, span):
+    """The overflow-checked operation at `span` sits in a match arm whose pattern pins its variable operand to finitely many
+    values, and for every one of them each arithmetic step of the expression stays inside its type's range."""
+    b = fx.body(name)
+    if not b or not b.get("hir"):
+        return False
+    root = b["hir"]["value"]
+    node = nps = None
+    for x, ps in F.walk(root):
+        if x.get("k") in ("Binary", "AssignOp") and x.get("span") == span:
+            node, nps = x, ps
+    if node is None:
+        return False
+
+    class Over(Exception):
+        pass
+
+    def ev(e, env):
+        e = F.strip(e)
+        k = e.get("k")
+        if k == "Lit" and e.get("value", {}).get("lit") == "int":
+            return int(e["value"]["v"])
+        if k == "Path":
+            if e.get("res") == "local":
+                if e["local"] in env:
+                    return env[e["local"]]
+                raise KeyError
+            d = F.path_def(e)
+            v = fx.const_value(d) if d else None
+            if v is None:
+                raise KeyError
+            return v
+        if k == "Unary" and e.get("op") == "Deref":
+            return ev(e["e"], env)
+        if k == "Cast":
+            return ev(e["e"], env)
+        if k == "Binary":
+            l, r = ev(e["l"], env), ev(e["r"], env)
+            v = {"Add": l + r, "Sub": l - r, "Mul": l * r}.get(e["op"])
+            if v is None:
+                raise KeyError
+            lo, hi = _INT_RANGE.get(e.get("ty"), (None, None))
+            if lo is None or not (lo <= v <= hi):
+                raise Over
+            return v
+        raise KeyError
+
+    for i in range(len(nps) - 1, -1, -1):
+        anc, key = nps[i]
+        if isinstance(anc, dict) and "pat" in anc and "body" in anc and i > 0 and isinstance(nps[i - 1][0], dict) and nps[i - 1][0].get("k") == "Match":
+            m = nps[i - 1][0]
+            sl = F.local_of(F.strip(m["scrut"]))
+            if sl is None:
+                sc = F.strip(m["scrut"])
+                if sc.get("k") == "Unary" and sc.get("op") == "Deref":
+                    sl = F.local_of(F.strip(sc["e"]))
+            vals = _pat_values(anc["pat"], fx)
+            if sl is None or vals is None or anc.get("guard") is not None:
+                continue
+            try:
+                for v in vals:
+                    ev(node if node.get("k") == "Binary" else node, {sl: v})
+                return True
+            except (KeyError, Over):
+                return False
+    return False
+
+
 def state_invariant_holds(fx):
     """Every type variable handed out by the type-checker state has an entry in BOTH of its maps (the value it stands for and
     its inference set): each function of the state that takes a fresh variable from the source inserts that very variable into
@@ -480,6 +588,10 @@ def check(fx, rep, tier):
                             narrow = oty
                     if narrow and not all(o.get("k") == "const" for o in ops) and not tainted:
                         runtime = [o for o in ops if o.get("k") != "const"]
+                        if arm_bounded(fx, name, t.get("span")):
+                            n_auto += 1
+                            rep.oblige(True, "R01.2", key, w, "", sample={"rule": "R01.2", "site": key, "width": narrow, "discharge": "every value the enclosing match arm admits keeps each step inside the type's range"} if n_auto <= 14 else None)
+                            continue
                         if not all(F.op_base_local(o) is not None and ta.guarded(name, F.op_base_local(o), bl["i"]) for o in runtime):
                             row = rows.get(key)
                             if row is not None:
@@ -651,6 +763,18 @@ def check(fx, rep, tier):
                 if row is not None:
                     used_rows.add(key)
                 continue
+            if short == "vec_insert" and len(t["args"]) > 1:
+                # `v.insert(v.partition_point(..), x)` / the Err position of a binary search of v: a position in 0..=len
+                il = F.op_base_local(t["args"][1])
+                croot = place_root(m, t["args"][0])
+                pos_ok = False
+                for d in m.defs().get(ta.root_of(name, il), []) if il is not None else []:
+                    if d[0] == "call" and F.strip_generics(F.Mir.callee_generic(d[3]) or "").split("::")[-1] == "partition_point" and d[3]["args"] and croot is not None and place_root(m, d[3]["args"][0]) == croot:
+                        pos_ok = True
+                if pos_ok:
+                    n_auto += 1
+                    rep.oblige(True, "R01.1", key, w, "", sample={"rule": "R01.1", "site": key, "discharge": "insert position is partition_point() of the same vector"} if n_auto <= 14 else None)
+                    continue
             if short in ("unwrap", "expect") and t["args"]:
                 # `v.first().unwrap()` / `.last()` / `.pop_front()` guarded by a length test of v
                 a0 = F.op_base_local(t["args"][0])
